@@ -30,14 +30,19 @@ func (r *vxRec) PreReadHeader(erpc.PreCtx) error              { r.hooks++; retur
 // VX_C16_Auth: whatever the client sends first, no handler and no per-message
 // hook runs unless the authentication exchange completed successfully.
 // args: first(0 AUTH_CALL frame with symbolic token, 1 CALL frame first, 2 frame with symbolic type,
-//             3 arbitrary bytes, 4 nothing), nBytes (for 3), pipelined(0/1: a CALL frame follows), otherPluginAfter(0/1)
+//             3 arbitrary bytes, 4 nothing), nBytes (for 3), pipelined(0/1: a CALL frame follows), otherPluginAfter(0/1),
+//       [setID(0/1): the verifier calls SetID before deciding]
 func VX_C16_Auth(args []int) {
 	first, nBytes, pipelined, after := args[0], args[1], args[2], args[3]
 	rec := &vxRec{}
 	recvCalls := 0
+	setID := len(args) > 4 && args[4] == 1
 	checker := NewCheckerPlugin(func(sess Session, fn RecvOnce) (interface{}, *erpc.Status) {
 		var info []byte
 		recvCalls++
+		if setID {
+			sess.SetID("claimed-user") // the verifier names the session after the claimed identity before checking it
+		}
 		if stat := fn(&info); !stat.OK() {
 			return nil, stat
 		}
@@ -98,6 +103,8 @@ func VX_C16_Auth(args []int) {
 		vxAssert(rec.hooks == 0, "no per-message hook runs on a connection that failed authentication")
 		vxAssert(conn.isClosed(), "rejected connection is closed")
 		vxAssert(p.CountSession() == 0, "rejected connection is not listed as a session")
+		_, listed := p.GetSession("claimed-user")
+		vxAssert(!listed, "rejected connection is not reachable under the id its verifier gave it")
 		for _, w := range conn.writes {
 			m, err := vxParse(w)
 			vxAssert(err == nil && m.Mtype() == erpc.TypeAuthReply, "only the authentication reply is ever written to a rejected connection")
